@@ -494,6 +494,63 @@ def check_flatten_model(ctx):
                 ctx.disagree("C16.unflatten", {"tree": t, "model": back})
 
 
+def stream_cli(ctx, nss, cfgmod, tmp):
+    """the `nuspacesim run` command line: the file it writes must describe the configuration that PRODUCED the run — the TOML
+    file with the command-line overrides applied — in its header, and reload as that configuration"""
+    from click.testing import CliRunner
+    from astropy.table import Table
+    import dask
+    from nuspacesim.apps.cli import cli
+    base = nss.NssConfig()
+    base.simulation.thrown_events = 60
+    base.simulation.spectrum = cfgmod.Simulation.MonoSpectrum(log_nu_energy=8.5)
+    base.detector.radio.enable = False
+    toml = os.path.join(tmp, "cli.toml")
+    cfgmod.create_toml(toml, base)
+    runs = [([], {"spectrum": ("monospectrum", {"log_nu_energy": 8.5}), "cloud": "no_cloud"}),
+            (["--monospectrum", "9.25"], {"spectrum": ("monospectrum", {"log_nu_energy": 9.25}), "cloud": "no_cloud"}),
+            (["--powerspectrum", "2.5", "7.0", "9.0"], {"spectrum": ("powerspectrum", {"index": 2.5, "lower_bound": 7.0, "upper_bound": 9.0}), "cloud": "no_cloud"}),
+            (["--monocloud", "4.5"], {"spectrum": ("monospectrum", {"log_nu_energy": 8.5}), "cloud": "monocloud"}),
+            (["--monospectrum", "10.0", "--pressuremapcloud", "2020-03-01"], {"spectrum": ("monospectrum", {"log_nu_energy": 10.0}), "cloud": "pressure_map"})]
+    if not ctx.thorough:
+        runs = [runs[0], runs[1 + int(ctx.rng.integers(0, 2))], runs[3 + int(ctx.rng.integers(0, 2))]]
+    for opts, want in runs:
+        out = os.path.join(tmp, "cli.fits")
+        if os.path.exists(out):
+            os.remove(out)
+        np.random.seed(11)
+        with dask.config.set(scheduler="synchronous"):
+            r = CliRunner().invoke(cli, ["run", toml, "-o", out, *opts])
+        case = {"command": "nuspacesim run cli.toml -o cli.fits " + " ".join(opts)}
+        ctx.case(("cli", tuple(opts)), case)
+        ctx.count("cli_runs")
+        if r.exit_code != 0 or not os.path.exists(out):
+            ctx.violation("nuspacesim run", "cli-fails", f"exit code {r.exit_code}: {str(r.exception)[:160]}", case)
+            continue
+        tab = Table.read(out)
+        sid, pars = want["spectrum"]
+        hdr = {k: tab.meta.get(("Config simulation spectrum " + k).upper(), tab.meta.get("Config simulation spectrum " + k)) for k in ("id", *pars)}
+        le = np.asarray(tab["log_e_nu"], dtype=np.float64)
+        ok_cols = np.all(le == pars["log_nu_energy"]) if sid == "monospectrum" else bool(np.all((le >= pars["lower_bound"]) & (le <= pars["upper_bound"])) and le.std() > 0)
+        if not ok_cols:
+            ctx.disagree("C16.cli-column-vs-options", {**case, "log_e_nu_head": le[:3].tolist()})
+        bad_hdr = hdr["id"] != sid or any(hdr[k] is None or not same_value(float(hdr[k]), float(v)) for k, v in pars.items())
+        cloud_hdr = tab.meta.get("CONFIG SIMULATION CLOUD_MODEL ID", tab.meta.get("Config simulation cloud_model id"))
+        if bad_hdr or cloud_hdr != want["cloud"]:
+            ctx.violation("nuspacesim run", "header-is-not-the-configuration-of-the-run", "the header of the results file does not describe the configuration that produced the run (command-line overrides applied)",
+                          {**case, "header_spectrum": {k: (None if v is None else str(v)) for k, v in hdr.items()}, "expected_spectrum": {"id": sid, **pars},
+                           "header_cloud_model": cloud_hdr, "expected_cloud_model": want["cloud"], "log_e_nu_head": le[:3].tolist()})
+            continue
+        try:
+            back = cfgmod.config_from_fits(out)
+            sp = back.simulation.spectrum
+            if sp.id != sid or any(not same_value(float(getattr(sp, k)), float(v)) for k, v in pars.items()):
+                ctx.violation("config_from_fits", "field:simulation.spectrum", "the configuration reloaded from the file written by the command line is not the one that produced the run",
+                              {**case, "reloaded": sp.model_dump(), "expected": {"id": sid, **pars}})
+        except Exception as e:  # noqa
+            ctx.violation("config_from_fits", "raises", f"{type(e).__name__}: {str(e)[:120]}", case)
+
+
 def run(ctx: Ctx):
     nss, cfgmod, results_table = _imports()
     tmp = tempfile.mkdtemp(prefix="c16-")
@@ -503,6 +560,7 @@ def run(ctx: Ctx):
     stream_configs(ctx, cfgmod, results_table, path, 5000 if ctx.thorough else 120)
     stream_synthetic(ctx, cfgmod, results_table, path)
     stream_compute(ctx, nss, cfgmod, path)
+    stream_cli(ctx, nss, cfgmod, tmp)
 
 
 def search(ctx: Ctx):
